@@ -573,13 +573,78 @@ type forger struct {
 	line    string
 	victim  int
 	baseIDs func(uint64) []int
+	decides map[gpbft.ActorID]map[gpbft.ActorID]bool // DECIDE votes of the last instance delivered so far, per receiver
 }
 
 // AllowMessage is consulted before every delivery (the simulation never reaches its global
 // stabilisation time), which gives the adversary control between any two deliveries.
-func (f *forger) AllowMessage(_ gpbft.ActorID, _ gpbft.ActorID, msg gpbft.GMessage) bool {
+func (f *forger) AllowMessage(_ gpbft.ActorID, to gpbft.ActorID, msg gpbft.GMessage) bool {
+	if f.kind == "lasttick" {
+		f.maybeForgeLastTick(to, msg)
+		return true
+	}
 	f.maybeForge(msg.Vote.Instance)
 	return true
+}
+
+// maybeForgeLastTick: the forged decision is slipped in during the very tick in which the last honest participant
+// of the last instance decides — the delivery of the DECIDE vote that completes its strong quorum — so that the
+// run is over before another message is delivered. An already recorded honest decision is replaced by one for the
+// same value (agreement still holds) whose signers are just below two thirds.
+func (f *forger) maybeForgeLastTick(to gpbft.ActorID, msg gpbft.GMessage) {
+	if f.done || msg.Vote.Instance != f.target || msg.Vote.Phase != gpbft.DECIDE_PHASE {
+		return
+	}
+	eci := (*f.sm).GetInstance(f.target)
+	if eci == nil {
+		return
+	}
+	if f.decides == nil {
+		f.decides = map[gpbft.ActorID]map[gpbft.ActorID]bool{}
+	}
+	if f.decides[to] == nil {
+		f.decides[to] = map[gpbft.ActorID]bool{}
+	}
+	f.decides[to][msg.Sender] = true
+	if int(to) >= f.honest || eci.GetDecision(to) != nil {
+		return
+	}
+	var sum int64
+	for s := range f.decides[to] {
+		sp, _ := eci.PowerTable.Get(s)
+		sum += sp
+	}
+	if !gpbft.IsStrongQuorum(sum, eci.PowerTable.ScaledTotal) {
+		return
+	}
+	victim := -1
+	for idx := 0; idx < f.honest; idx++ {
+		if gpbft.ActorID(idx) == to {
+			continue
+		}
+		if eci.GetDecision(gpbft.ActorID(idx)) == nil {
+			return // somebody else is still undecided: this is not the last tick
+		}
+		victim = idx
+	}
+	if victim < 0 {
+		return
+	}
+	w := f.w
+	own := eci.GetDecision(gpbft.ActorID(victim))
+	base := f.baseIDs(f.target)
+	head := base[len(base)-1]
+	ids := []int{head, head + 1}
+	if w.chainIDs(own) != chainStr('c', ids) {
+		return
+	}
+	d := &decSpec{vote: payloadSpec{inst: f.target, phase: gpbft.DECIDE_PHASE, val: valueSpec{kind: 'c', ids: ids}}}
+	d.signers = w.pickSigners(eci.PowerTable, 2)
+	d.sigBy, d.sigPl = d.signers, d.vote
+	j := w.build(d, eci.PowerTable, eci.SupplementalData)
+	must(sim.VerifHostReceiveDecision(*f.sm, victim, j))
+	f.done, f.victim = true, victim
+	f.line = d.String()
 }
 
 func (f *forger) ValidateMessage(_ context.Context, msg *gpbft.GMessage) (gpbft.ValidatedMessage, error) {
@@ -599,7 +664,7 @@ func (f *forger) ReceiveMessage(_ context.Context, vm gpbft.ValidatedMessage) er
 func (f *forger) ReceiveAlarm(context.Context) error { return nil }
 
 func (f *forger) maybeForge(seen uint64) {
-	if f.done || seen < f.target {
+	if f.done || seen < f.target || f.kind == "lasttick" {
 		return
 	}
 	eci := (*f.sm).GetInstance(f.target)
@@ -667,7 +732,7 @@ func (f *forger) maybeForge(seen uint64) {
 
 func runStream(out *vh.Out, w *world, cases int) {
 	r := w.rng
-	kinds := []string{"random", "random", "random", "underpowered", "underpowered", "valid", "disagree", "none"}
+	kinds := []string{"random", "random", "random", "underpowered", "underpowered", "valid", "disagree", "none", "lasttick", "lasttick"}
 	for c := 0; c < cases; c++ {
 		honest := 1 + r.Intn(5)
 		advPower := int64(1 + r.Intn(2))
@@ -682,6 +747,16 @@ func runStream(out *vh.Out, w *world, cases int) {
 		instances := uint64(1 + r.Intn(3))
 		target := uint64(r.Intn(int(instances)))
 		kind := kinds[r.Intn(len(kinds))]
+		if kind == "lasttick" {
+			target = instances - 1
+			if honest < 2 {
+				honest = 2 + r.Intn(4)
+				hp = 1
+				if 3*advPower >= int64(honest)*hp {
+					hp = 3*advPower/int64(honest) + 1
+				}
+			}
+		}
 		baseIDs := []int{1 + r.Intn(3)}
 		var sm *sim.Simulation
 		f := &forger{w: w, sm: &sm, target: target, kind: kind, honest: honest, victim: -1}
@@ -707,7 +782,7 @@ func runStream(out *vh.Out, w *world, cases int) {
 			sim.WithGpbftOptions(gpbft.WithDelta(200*time.Millisecond), gpbft.WithDeltaBackOffExponent(1.3),
 				gpbft.WithRebroadcastBackoff(1.3, 0, time.Second, 5*time.Second)),
 			sim.WithSigningBackend(w.backend),
-			sim.WithGlobalStabilizationTime(100000*time.Hour),
+			sim.WithGlobalStabilizationTime(100000 * time.Hour),
 			sim.WithBaseChain(w.pool.chain(baseIDs)),
 			sim.AddHonestParticipants(honest, &poolChainGen{w: w}, sim.UniformStoragePower(gpbft.NewStoragePower(hp))),
 		}
